@@ -47,6 +47,9 @@ FLOORS = {
     'grouping:parens-needed': (0.15, 'grouping:case'),
     'grouping:ok': (0.60, 'grouping:case'),
     'pairs:ok': (0.60, 'pairs:case'),
+    'pairs:cfg-compat': (0.25, 'pairs:case'),
+    'grouping:cfg-compat': (0.20, 'grouping:case'),
+    'kwnames:ok': (0.90, 'kwnames:case'),
     'ws:comment': (0.30, 'ws:case-2.0+'),
     'ws:variant-ok': (0.50, 'ws:case'),
     'roundtrip:value-compared': (0.50, 'roundtrip:case'),
@@ -59,16 +62,45 @@ VERS = X.VERSIONS
 # elementpath access
 # --------------------------------------------------------------------------
 _PARSERS: dict = {}
+CONFIGS = ('default', 'compat', 'options')
+_CFG = ['default']          # configuration of the parsers used by the current judgement
+
+
+def _parser_kwargs(ver, cfg):
+    """constructor options that must not change the grammar of the version"""
+    if cfg == 'default':
+        return {}
+    if ver == '1.0':
+        return {'strict': False} if cfg == 'options' else {}
+    if cfg == 'compat':
+        return {'compatibility_mode': True}
+    return {'strict': False, 'default_namespace': 'urn:d', 'xsd_version': '1.1', 'base_uri': 'http://example.com/x/',
+            'function_namespace': 'http://www.w3.org/2005/xpath-functions',
+            'default_collation': 'http://www.w3.org/2005/xpath-functions/collation/codepoint',
+            'variable_types': {'zz': 'xs:integer?'}}
+
+
+class use_config:
+    def __init__(self, cfg):
+        self.cfg = cfg
+
+    def __enter__(self):
+        self.old = _CFG[0]
+        _CFG[0] = self.cfg
+
+    def __exit__(self, *a):
+        _CFG[0] = self.old
 
 
 def parser(ver):
-    p = _PARSERS.get(ver)
+    key = (ver, _CFG[0])
+    p = _PARSERS.get(key)
     if p is None:
         from elementpath import XPath1Parser, XPath2Parser
         from elementpath.xpath30 import XPath30Parser
         from elementpath.xpath31 import XPath31Parser
         cls = {'1.0': XPath1Parser, '2.0': XPath2Parser, '3.0': XPath30Parser, '3.1': XPath31Parser}[ver]
-        p = _PARSERS[ver] = cls()
+        p = _PARSERS[key] = cls(**_parser_kwargs(ver, _CFG[0]))
     return p
 
 
@@ -78,10 +110,11 @@ POISONED = [0]
 def _check_parser_state(ver):
     """C04 does not judge parser reusability (C03 does): an instance left with parse_arguments=False by a failed
     parse of an arrow expression is replaced, so that later cases are judged on a sound parser"""
-    p = _PARSERS.get(ver)
+    key = (ver, _CFG[0])
+    p = _PARSERS.get(key)
     if p is not None and getattr(p, 'parse_arguments', True) is not True:
         POISONED[0] += 1
-        del _PARSERS[ver]
+        del _PARSERS[key]
 
 
 def tdop_parse(ver, s):
@@ -215,7 +248,7 @@ def _b(*parts):
 # --------------------------------------------------------------------------
 # grouping
 # --------------------------------------------------------------------------
-def grouping_discs(ver, ast, rec=None, tag='grouping'):
+def _grouping_core(ver, ast):
     discs = []
     oks = 0
     for full in (False, True):
@@ -241,12 +274,25 @@ def grouping_discs(ver, ast, rec=None, tag='grouping'):
                               f'{mode} string={o.string!r} minimal={mo.string!r} at {d[0]}'))
         if full is False and o.kind != 'ok':
             break           # the fully parenthesised form fails for the same reason nearly always; one Disc per cause
+    return discs, oks
+
+
+def grouping_discs(ver, ast, rec=None, tag='grouping', cfg='default'):
+    """the oracle is the EBNF of the VERSION whatever the configuration of the parser; a discrepancy that the default
+    configuration does not show as well gets the configuration in its bucket"""
+    with use_config(cfg):
+        discs, oks = _grouping_core(ver, ast)
+    if cfg != 'default' and discs:
+        base = {d.bucket for d in _grouping_core(ver, ast)[0]}
+        for d in discs:
+            if d.bucket not in base:
+                d.bucket += '/cfg=' + cfg
     if rec is not None:
         toks, shape = X.render(ast, ver, False)
         ops = X.operators(ast, ver)
         levels = {lv for lv, _ in ops}
         same = len(ops) - len(levels) > 0
-        classes = [f'{tag}:case', f'{tag}:ver-{ver}']
+        classes = [f'{tag}:case', f'{tag}:ver-{ver}', f'{tag}:cfg-{cfg}']
         if len(levels) >= 2:
             classes.append(f'{tag}:multi-level')
         if same:
@@ -257,15 +303,41 @@ def grouping_discs(ver, ast, rec=None, tag='grouping'):
             classes.append(f'{tag}:ok')
         for lv, op in ops[:6]:
             classes.append(f'{tag}:op-{op}')
-        rec.case([ver, X.join_spaced(toks)], nontrivial=len(ops) >= 2,
-                 sample={'check': tag, 'ver': ver, 'string': X.join_spaced(toks)}, classes=classes)
+        rec.case([ver, cfg, X.join_spaced(toks)], nontrivial=len(ops) >= 2,
+                 sample={'check': tag, 'ver': ver, 'cfg': cfg, 'string': X.join_spaced(toks)}, classes=classes)
     return discs
 
 
 def judge_grouping(case, rec=None, tag='grouping'):
     out = []
     for a in case['asts']:
-        out += grouping_discs(case['ver'], a, rec, tag)
+        out += grouping_discs(case['ver'], a, rec, tag, case.get('cfg', 'default'))
+    return out
+
+
+def judge_kwnames(case, rec=None):
+    """keyword-prefixed NCNames: one name token (grouping), tight / newline / comment whitespace variants, source round trip"""
+    ver = case['ver']
+    out = []
+    for a in case['asts']:
+        out += grouping_discs(ver, a, rec, 'kwnames')
+        toks, shape = X.render(a, ver, False)
+        exp = X.canon(shape)
+        if parse_outcome(ver, X.join_spaced(toks), exp).kind != 'ok':
+            continue
+        n = len(toks)
+        tight = [None] * (n + 1)
+        for i in range(1, n):
+            if not X.must_sep(toks[i - 1], toks[i]):
+                tight[i] = ['', 'none']
+        out += _ws_variant_discs(ver, toks, exp, tight, 'kw-tight')[0]
+        gaps = [['\n', 'ws'] if (ver == '1.0' or i % 2) else ['(:c:)', 'comment-plain'] for i in range(n + 1)]
+        out += _ws_variant_discs(ver, toks, exp, gaps, 'kw-gaps')[0]
+        o = roundtrip_outcome(ver, a, values=False)
+        if o.key not in ('ok', 'unparsed'):
+            cls = X.klass(a, ver, True)
+            out.append(Disc(_b('C04/roundtrip', o.key, 'kwname', cls, ver), getattr(o, 't1', 'source re-parses'),
+                            getattr(o, 't2', getattr(o, 'src', None)), f'string={o.s!r} source={getattr(o, "src", None)!r}'))
     return out
 
 
@@ -779,7 +851,8 @@ def _ver():
 def case_asts(draw, max_depth, batch):
     ver = draw(_ver())
     n = draw(st.integers(1, batch))
-    return {'ver': ver, 'asts': [draw(X.ast(ver, draw(st.integers(1, max_depth)))) for _ in range(n)]}
+    return {'ver': ver, 'cfg': draw(st.sampled_from(CONFIGS)),
+            'asts': [draw(X.ast(ver, draw(st.integers(1, max_depth)))) for _ in range(n)]}
 
 
 @st.composite
@@ -819,7 +892,7 @@ def _strategy(job):
     raise KeyError(chk)
 
 
-_JUDGES = {'grouping': judge_grouping, 'pairs': judge_pairs, 'ws': judge_ws, 'roundtrip': judge_roundtrip,
+_JUDGES = {'grouping': judge_grouping, 'pairs': judge_pairs, 'kwnames': judge_kwnames, 'ws': judge_ws, 'roundtrip': judge_roundtrip,
            'negative': judge_negative, 'hashseed': judge_hashseed}
 
 
@@ -874,13 +947,21 @@ def selftest():
 # module interface
 # --------------------------------------------------------------------------
 def _pair_jobs():
-    # finite space, enumerated completely in both tiers: every operator form nested in every operand slot of every other
-    return [{'check': 'pairs', 'ver': v, 'part': i, 'parts': k} for v, k in (('1.0', 1), ('2.0', 2), ('3.0', 2), ('3.1', 2))
-            for i in range(k)]
+    # finite space, enumerated completely in both tiers: every operator form nested in every operand slot of every other,
+    # for every parser configuration (the grammar of a version does not depend on constructor options)
+    out = []
+    for cfg in CONFIGS:
+        for v, k in (('1.0', 1), ('2.0', 2), ('3.0', 2), ('3.1', 2)):
+            if v == '1.0' and cfg == 'compat':
+                continue
+            out += [{'check': 'pairs', 'ver': v, 'cfg': cfg, 'part': i, 'parts': k} for i in range(k)]
+    out += [{'check': 'kwnames', 'ver': v, 'part': i, 'parts': 2} for v in VERS for i in range(2)]
+    return out
 
 
 def _pair_cases(job):
-    for idx, (label, a) in enumerate(X.pair_space(job['ver'])):
+    space = X.pair_space if job['check'] == 'pairs' else X.kw_space
+    for idx, (label, a) in enumerate(space(job['ver'])):
         if idx % job['parts'] != job['part']:
             continue
         try:
@@ -889,7 +970,7 @@ def _pair_cases(job):
         except ValueError:
             yield label, None           # not derivable in this version (XPath 1.0 steps)
             continue
-        yield label, {'ver': job['ver'], 'asts': [a]}
+        yield label, {'ver': job['ver'], 'cfg': job.get('cfg', 'default'), 'asts': [a]}
 
 
 def jobs(tier, seed):
@@ -926,12 +1007,13 @@ def run_job(job, rec: Recorder):
     chk = job['check']
     if chk == 'hashseed':
         return run_hashseed_job(job, rec)
-    if chk == 'pairs':
+    if chk in ('pairs', 'kwnames'):
+        jd = judge_pairs if chk == 'pairs' else judge_kwnames
         for label, case in _pair_cases(job):
             if case is None:
-                rec.cls('pairs:not-derivable')
+                rec.cls(f'{chk}:not-derivable')
                 continue
-            rec.discs_of('pairs', case, judge_pairs(case, rec))
+            rec.discs_of(chk, case, jd(case, rec))
         rec.extra['parser_instances_replaced_after_state_leak'] = POISONED[0]
         return
     jd = _JUDGES[chk]
@@ -960,10 +1042,10 @@ def shrink_job(job, bucket, budget):
                                 return small, d2
                 return full, d
         return None
-    if chk == 'pairs':
+    if chk in ('pairs', 'kwnames'):
         for label, case in _pair_cases(job):
             if case is not None:
-                for d in judge_pairs(case):
+                for d in (judge_pairs if chk == 'pairs' else judge_kwnames)(case):
                     if d.bucket == bucket:
                         return case, d
         return None
